@@ -9,7 +9,7 @@ TECHNIQUE = ("Coq: interleaving semantics of the worker-pool pattern, theorems f
              "schedule-independent results, errors reach the caller, termination reachable), instantiated through facts the translator "
              "extracts from the goroutine literals of the current source; correspondence: real runs with 1 and k threads, race detector")
 RULE = ("reference tree + 3..9 compared/bootstrap trees on the same taxa, op in {compare, weighted, fbp, tbe}, threads in {2,3,4,16,more than "
-        "trees}, an erroneous entry or a foreign-taxon tree injected at every stream position or none; each case runs the real code with 1 "
+        "trees}, erroneous entries or foreign-taxon trees injected at one, several or all stream positions, or none; each case runs the real code with 1 "
         "thread and with k threads; non-trivial = both runs returned results; the same cases are re-run on a -race build")
 TRUSTED = ["tools/gotrans extraction of goroutine facts (captured variables assigned outside mutex-protected statements, return paths without Done)",
            "Go runtime scheduler, memory model and race detector (data-race freedom is observed with -race, not proved)"]
@@ -38,8 +38,8 @@ def gen(rng, tier):
             threads = rng.choice([2, 3, 4, 16, k + 3])
             bk = rng.choice(["none", "none", "err", "taxa"])
             case = {"op": Sym(op), "ref": T(ref), "trees": [T(t) for t in trees], "threads": threads,
-                    "badkind": Sym(bk), "badpos": rng.randrange(k), "tips": rng.random() < 0.5}
-            out.append({"sx": sx(case), "meta": {"op": op, "threads": threads, "bad": bk, "ntrees": k}})
+                    "badkind": Sym(bk), "badposs": sorted(rng.sample(range(k), rng.choice([1, 1, 2, 3, min(k, 5), k]))), "tips": rng.random() < 0.5}
+            out.append({"sx": sx(case), "meta": {"op": op, "threads": threads, "bad": bk, "ntrees": k, "nbad": len(case["badposs"]) if bk != "none" else 0}})
     return out
 
 def extra(tier, seed, st):
